@@ -1,0 +1,179 @@
+//go:build verif
+
+// Contracts for the publish side of protocol_v2.go: readLen, PUB, DPUB, MPUB, readMPUB (C09, C01, C07), checked by
+// /verif/cmd/nsqvc. Comment-only file. Ghost streams: rIn/rPos/rErrs (.trusted/input.spec), wOut/wN (.trusted/codec.spec).
+
+package nsqd
+
+// ------------------------------------------------------------------------------------------------------------------
+// Ghost record of what a command did to the broker. Set by the trusted stubs below (onreturn), read by the command contracts.
+//@ ghost putCalls int
+//@ ghost putErr error
+//@ ghost putMsg *Message
+//@ ghost putMsgs []*Message
+//@ ghost putTopic *Topic
+//@ ghost getTopicCalls int
+//@ ghost gotTopic *Topic
+//@ ghost gotTopicName string
+//@ ghost gotTopicAuthSeq int
+//@ ghost gotTopicAuthOK bool
+//@ ghost authCalls int
+//@ ghost authOK bool
+
+// Trusted stubs (bodies not verified here; they belong to the topic / nsqd area). Only the call protocol is recorded.
+// PutMessage(s): the message(s), the topic and the outcome of the most recent call; message contents are not touched.
+// GetTopic never returns nil (it creates the topic). Recorded: the name asked for and whether the most recent auth check
+// (CheckAuth) had passed when the topic was looked up / created.
+// GenerateID: 16 lower-case hex characters (NewGUID + Hex are verified in zz_contracts_guid_verif.go; NewGUID has no
+// `modifies` clause, so the retry loop around it is a stub here).
+// Authorisation queries (may contact the auth server and refresh the cached state).
+
+// Configuration assumption (opt-in, used only where named): the limits are fixed at start-up; every Options value getOpts can
+// return carries the same max-msg-size, max-body-size and max-req-timeout (PUT /config/... swaps in a copy that differs only
+// in nsqlookupd_tcp_addresses or log_level).
+//@ fn cfgMaxMsgSize() int
+//@ fn cfgMaxBodySize() int
+//@ fn cfgMaxReqTimeout() int
+//@ axiom[optin] opts_fixed: forall o *Options :: {o.MaxMsgSize} {o.MaxBodySize} {o.MaxReqTimeout}
+//@      o.MaxMsgSize == cfgMaxMsgSize() && o.MaxBodySize == cfgMaxBodySize() && o.MaxReqTimeout == cfgMaxReqTimeout()
+// The three limits are int64 values.
+//@ axiom[optin] opts_range: cfgMaxMsgSize() <= 9223372036854775807 && cfgMaxBodySize() <= 9223372036854775807 && cfgMaxReqTimeout() <= 9223372036854775807 &&
+//@      -9223372036854775808 <= cfgMaxMsgSize() && -9223372036854775808 <= cfgMaxBodySize() && -9223372036854775808 <= cfgMaxReqTimeout()
+// Extensionality for dec: it is a function of the sequence's contents (its defining axioms only read a[..]). Needed because the
+// engine gives two syntactically different terms for the same backing array two unrelated sequence views (see ENGINE GAPS).
+// (dec_ext: the proved version in zz_contracts_protocol_consumer_verif.go is used)
+
+// ------------------------------------------------------------------------------------------------------------------
+// readLen: the next 4 input bytes as a big-endian two's complement number.
+//@ func readLen(r io.Reader, tmp []byte) (int32, error)
+//@   props C09 C07 C10
+//@   requires len(tmp) == 4
+//@   ensures[value] result1 == nil ==> result0 == toI32(sbe32(rIn, old(rPos))) && rPos == old(rPos) + 4 && rErrs == old(rErrs)
+//@   ensures[short-read] result1 != nil ==> result0 == 0 && old(rPos) <= rPos && rPos < old(rPos) + 4 && rErrs == old(rErrs) + 1
+//@   ensures[frame] forall k int :: {tmp[k]} k < 0 || k >= 4 ==> tmp[k] == old(tmp[k])
+//@   ensures[only-from-r] rCur == r && !old(rForeign) ==> !rForeign
+//@   modifies elems(tmp), rPos, rErrs, rForeign
+
+//@ func (c *clientV2) PublishedMessage(topic string, count uint64)
+//@   props C09
+//@   requires c != nil && c.pubCounts != nil
+//@   modifies mapstore(map[string]uint64)
+
+// The auth gate: nil, or one of the three documented fatal errors. Records that it ran and its verdict.
+
+// ------------------------------------------------------------------------------------------------------------------
+// Call protocol of the command handlers (established by newClientV2 / IOLoop): the objects exist, the length buffer has 4 bytes.
+//@ pred validPubCtx(p *protocolV2, c *clientV2) := p != nil && p.nsqd != nil && p.nsqd.ci != nil && c != nil && c.nsqd != nil && c.Reader != nil &&
+//@      len(c.lenSlice) == 4 && c.pubCounts != nil
+// The declared size of the command's body: first 4 bytes of the input at entry.
+//@ fn declLen(at int) int := toI32(sbe32(rIn, at))
+
+// PUB <topic>\n[4-byte size][body]
+//@ func (p *protocolV2) PUB(client *clientV2, params [][]byte) ([]byte, error)
+//@   onreturn cmdHandled := cmdHandled + 1
+//@   props C09 C01 C07
+//@   requires validPubCtx(p, client)
+//@   ensures[fatal-or-ok] fatalOrNil(result1)
+//@   ensures[params] len(params) < 2 ==> isFatal(result1, "E_INVALID") && rPos == old(rPos)
+//@   ensures[bad-topic-length] len(params) >= 2 && (len(params[1]) < 1 || len(params[1]) > 64) ==> isFatal(result1, "E_BAD_TOPIC") && rPos == old(rPos)
+//@   ensures[topic-name-valid] getTopicCalls != old(getTopicCalls) ==> validName(gotTopicName)
+//@   ensures[short-read] rErrs != old(rErrs) ==> isFatal(result1, "E_BAD_MESSAGE")
+//@   ensures[bad-size] rPos >= old(rPos) + 4 && declLen(old(rPos)) <= 0 ==> isFatal(result1, "E_BAD_MESSAGE") && rPos == old(rPos) + 4
+//@   ensures[too-big; uses opts_fixed] rPos >= old(rPos) + 4 && declLen(old(rPos)) > cfgMaxMsgSize() ==> isFatal(result1, "E_BAD_MESSAGE") && rPos == old(rPos) + 4
+//@   ensures[auth-before-topic] getTopicCalls != old(getTopicCalls) ==> getTopicCalls == old(getTopicCalls) + 1 && gotTopicAuthSeq > old(authCalls) && gotTopicAuthOK
+//@   ensures[rejected-enqueues-nothing] result1 != nil ==> putCalls == old(putCalls) || (putCalls == old(putCalls) + 1 && putErr != nil && isFatal(result1, "E_PUB_FAILED"))
+//@   ensures[rejected-before-put-creates-nothing] result1 != nil && !isFatal(result1, "E_PUB_FAILED") ==> putCalls == old(putCalls) && getTopicCalls == old(getTopicCalls)
+//@   ensures[ack-after-put; uses opts_fixed] result1 == nil ==> putCalls == old(putCalls) + 1 && putErr == nil && putTopic == gotTopic && putMsg != nil &&
+//@        1 <= declLen(old(rPos)) && declLen(old(rPos)) <= cfgMaxMsgSize() && len(putMsg.Body) == declLen(old(rPos)) &&
+//@        rPos == old(rPos) + 4 + declLen(old(rPos)) && putMsg.deferred == 0
+//@   ensures[body-is-input] result1 == nil ==> forall k int :: {putMsg.Body[k]} 0 <= k && k < len(putMsg.Body) ==> putMsg.Body[k] == rIn[old(rPos) + 4 + k]
+//@   ensures[ok] result1 == nil ==> result0 == okBytes
+
+// DPUB <topic> <defer ms>\n[4-byte size][body]. The delay is the decimal number params[2] in milliseconds; it is accepted iff
+// 0 <= delay <= max-req-timeout, in mathematical integers (Duration is in nanoseconds: 1 ms = 1000000).
+//@ fn delayMs(b []byte) int := dec(arr(b), off(b), len(b))
+//@ func (p *protocolV2) DPUB(client *clientV2, params [][]byte) ([]byte, error)
+//@   onreturn cmdHandled := cmdHandled + 1
+//@   props C09 C01 C07
+//@   requires validPubCtx(p, client)
+//@   ensures[fatal-or-ok] fatalOrNil(result1)
+//@   ensures[params] len(params) < 3 ==> isFatal(result1, "E_INVALID") && rPos == old(rPos)
+//@   ensures[bad-topic-length] len(params) >= 3 && (len(params[1]) < 1 || len(params[1]) > 64) ==> isFatal(result1, "E_BAD_TOPIC") && rPos == old(rPos)
+//@   ensures[topic-name-valid] getTopicCalls != old(getTopicCalls) ==> validName(gotTopicName)
+//@   ensures[delay-is-a-number] len(params) >= 3 && rPos != old(rPos) ==> old(digits(params[2], len(params[2])))
+//@   ensures[delay-in-range; uses opts_fixed, dec_ext] len(params) >= 3 && rPos != old(rPos) ==>
+//@        0 <= old(delayMs(params[2])) * 1000000 && old(delayMs(params[2])) * 1000000 <= cfgMaxReqTimeout()
+//@   ensures[in-range-delay-accepted; uses opts_fixed, opts_range, dec_ext] len(params) >= 3 && old(digits(params[2], len(params[2]))) &&
+//@        0 <= old(delayMs(params[2])) * 1000000 && old(delayMs(params[2])) * 1000000 <= cfgMaxReqTimeout() ==> !isFatal(result1, "E_INVALID")
+//@   ensures[short-read] rErrs != old(rErrs) ==> isFatal(result1, "E_BAD_MESSAGE")
+//@   ensures[bad-size] rPos >= old(rPos) + 4 && declLen(old(rPos)) <= 0 ==> isFatal(result1, "E_BAD_MESSAGE") && rPos == old(rPos) + 4
+//@   ensures[too-big; uses opts_fixed] rPos >= old(rPos) + 4 && declLen(old(rPos)) > cfgMaxMsgSize() ==> isFatal(result1, "E_BAD_MESSAGE") && rPos == old(rPos) + 4
+//@   ensures[auth-before-topic] getTopicCalls != old(getTopicCalls) ==> getTopicCalls == old(getTopicCalls) + 1 && gotTopicAuthSeq > old(authCalls) && gotTopicAuthOK
+//@   ensures[rejected-enqueues-nothing] result1 != nil ==> putCalls == old(putCalls) || (putCalls == old(putCalls) + 1 && putErr != nil && isFatal(result1, "E_DPUB_FAILED"))
+//@   ensures[rejected-before-put-creates-nothing] result1 != nil && !isFatal(result1, "E_DPUB_FAILED") ==> putCalls == old(putCalls) && getTopicCalls == old(getTopicCalls)
+//@   ensures[ack-after-put; uses opts_fixed] result1 == nil ==> putCalls == old(putCalls) + 1 && putErr == nil && putTopic == gotTopic && putMsg != nil &&
+//@        1 <= declLen(old(rPos)) && declLen(old(rPos)) <= cfgMaxMsgSize() && len(putMsg.Body) == declLen(old(rPos)) &&
+//@        rPos == old(rPos) + 4 + declLen(old(rPos))
+//@   ensures[deferred-by-delay; uses dec_ext] result1 == nil ==> putMsg.deferred == old(delayMs(params[2])) * 1000000
+//@   ensures[body-is-input] result1 == nil ==> forall k int :: {putMsg.Body[k]} 0 <= k && k < len(putMsg.Body) ==> putMsg.Body[k] == rIn[old(rPos) + 4 + k]
+//@   ensures[ok] result1 == nil ==> result0 == okBytes
+
+// ------------------------------------------------------------------------------------------------------------------
+// MPUB body: [4-byte count] then count times [4-byte size][body]. mpubAt(s, i) = position in the input of the size field of
+// message i when the body starts at s (definition by recursion; the two axioms are its defining equations).
+//@ fn mpubAt(s int, i int) int
+//@ axiom[optin] mpub_first: forall s int :: {mpubAt(s, 0)} mpubAt(s, 0) == s + 4
+//@ axiom[optin] mpub_step: forall s int, i int :: i >= 0 ==> mpubAt(s, i + 1) == mpubAt(s, i) + 4 + declLen(mpubAt(s, i))
+//@ pred mpubMsg(m *Message, s int, j int, maxMessageSize int64) := m != nil && fresh(m) && allocated(m) && fresh(m.Body) && allocated(base(m.Body)) && m.deferred == 0 &&
+//@      len(m.Body) == declLen(mpubAt(s, j)) && 1 <= len(m.Body) && len(m.Body) <= maxMessageSize
+
+//@ func readMPUB(r io.Reader, tmp []byte, topic *Topic, maxMessageSize int64, maxBodySize int64) ([]*Message, error)
+//@   props C09 C07 C10 C01
+//@   requires len(tmp) == 4 && topic != nil && topic.idFactory != nil && topic.nsqd != nil
+//@   ensures[errors] result1 != nil ==> isFatal(result1, "E_BAD_BODY") || isFatal(result1, "E_BAD_MESSAGE")
+//@   ensures[short-read] rErrs != old(rErrs) ==> result1 != nil
+//@   ensures[bad-count] rPos >= old(rPos) + 4 && (declLen(old(rPos)) <= 0 || (maxBodySize >= 0 && declLen(old(rPos)) > (maxBodySize - 4) / 5)) ==>
+//@        isFatal(result1, "E_BAD_BODY") && rPos == old(rPos) + 4
+//@   ensures[all-or-nothing] result1 != nil ==> result0 == nil && len(result0) == 0
+//@   ensures[count] result1 == nil ==> len(result0) == declLen(old(rPos)) && 1 <= len(result0) && (maxBodySize >= 0 ==> len(result0) <= (maxBodySize - 4) / 5) && fresh(result0)
+//@   ensures[messages] result1 == nil ==> forall j int :: {result0[j]} 0 <= j && j < len(result0) ==> mpubMsg(result0[j], old(rPos), j, maxMessageSize)
+//@   ensures[bodies-are-input] result1 == nil ==> forall j int, k int :: {result0[j].Body[k]} 0 <= j && j < len(result0) && 0 <= k && k < len(result0[j].Body) ==>
+//@        result0[j].Body[k] == rIn[mpubAt(old(rPos), j) + 4 + k]
+//@   ensures[consumed] result1 == nil ==> rPos == mpubAt(old(rPos), len(result0))
+//@   ensures[only-from-r] rCur == r && !old(rForeign) ==> !rForeign
+//@   modifies elems(byte), rPos, rErrs, rForeign, lastNow, guidFactory.sequence, guidFactory.lastTimestamp, guidFactory.lastID, lastIssued, lastNow
+//@   loop 0
+//@     invariant[range] 0 <= i && i <= numMessages && numMessages == declLen(old(rPos)) && 1 <= numMessages && (maxBodySize >= 0 ==> numMessages <= (maxBodySize - 4) / 5)
+//@     invariant[slice] len(messages) == i && fresh(messages) && base(messages) != 0
+//@     invariant[no-errors] rErrs == old(rErrs)
+//@     invariant[position; uses mpub_first(old(rPos)), mpub_step(old(rPos), i - 1)] rPos == mpubAt(old(rPos), i)
+//@     invariant[messages] forall j int :: {messages[j]} 0 <= j && j < i ==> mpubMsg(messages[j], old(rPos), j, maxMessageSize)
+//@     invariant[bodies] forall j int, k int :: {messages[j].Body[k]} 0 <= j && j < i && 0 <= k && k < len(messages[j].Body) ==>
+//@        messages[j].Body[k] == rIn[mpubAt(old(rPos), j) + 4 + k]
+//@     invariant[only-from-r] rCur == r && !old(rForeign) ==> !rForeign
+//@     decreases numMessages - i
+
+// MPUB <topic>\n[4-byte body size][4-byte count]{[4-byte size][body]}. All-or-nothing: PutMessages is reached only after every
+// message of the batch has been read and validated, and OK is answered only if it returned nil for exactly those messages.
+//@ func (p *protocolV2) MPUB(client *clientV2, params [][]byte) ([]byte, error)
+//@   onreturn cmdHandled := cmdHandled + 1
+//@   props C09 C01 C07
+//@   requires validPubCtx(p, client)
+//@   ensures[fatal-or-ok] fatalOrNil(result1)
+//@   ensures[params] len(params) < 2 ==> isFatal(result1, "E_INVALID") && rPos == old(rPos)
+//@   ensures[bad-topic-length] len(params) >= 2 && (len(params[1]) < 1 || len(params[1]) > 64) ==> isFatal(result1, "E_BAD_TOPIC") && rPos == old(rPos)
+//@   ensures[topic-name-valid] getTopicCalls != old(getTopicCalls) ==> validName(gotTopicName)
+//@   ensures[auth-before-topic] getTopicCalls != old(getTopicCalls) ==> getTopicCalls == old(getTopicCalls) + 1 && gotTopicAuthSeq > old(authCalls) && gotTopicAuthOK
+//@   ensures[auth-before-read] rPos != old(rPos) ==> authCalls > old(authCalls) && authOK
+//@   ensures[bad-body-size] rPos >= old(rPos) + 4 && declLen(old(rPos)) <= 0 ==> isFatal(result1, "E_BAD_BODY") && rPos == old(rPos) + 4
+//@   ensures[body-too-big; uses opts_fixed] rPos >= old(rPos) + 4 && declLen(old(rPos)) > cfgMaxBodySize() ==> isFatal(result1, "E_BAD_BODY") && rPos == old(rPos) + 4
+//@   ensures[bad-count; uses opts_fixed] rPos >= old(rPos) + 8 && (declLen(old(rPos) + 4) <= 0 || declLen(old(rPos) + 4) > (cfgMaxBodySize() - 4) / 5) ==>
+//@        isFatal(result1, "E_BAD_BODY") && rPos == old(rPos) + 8
+//@   ensures[short-read] rErrs != old(rErrs) ==> isFatal(result1, "E_BAD_BODY") || isFatal(result1, "E_BAD_MESSAGE")
+//@   ensures[all-or-nothing] result1 != nil ==> putCalls == old(putCalls) || (putCalls == old(putCalls) + 1 && putErr != nil && isFatal(result1, "E_MPUB_FAILED"))
+//@   ensures[ack-after-put] result1 == nil ==> putCalls == old(putCalls) + 1 && putErr == nil && putTopic == gotTopic &&
+//@        len(putMsgs) == declLen(old(rPos) + 4) && 1 <= len(putMsgs) && rPos == mpubAt(old(rPos) + 4, len(putMsgs))
+//@   ensures[messages; uses opts_fixed] result1 == nil ==> forall j int :: {putMsgs[j]} 0 <= j && j < len(putMsgs) ==> mpubMsg(putMsgs[j], old(rPos) + 4, j, cfgMaxMsgSize())
+//@   ensures[bodies-are-input] result1 == nil ==> forall j int, k int :: {putMsgs[j].Body[k]} 0 <= j && j < len(putMsgs) && 0 <= k && k < len(putMsgs[j].Body) ==>
+//@        putMsgs[j].Body[k] == rIn[mpubAt(old(rPos) + 4, j) + 4 + k]
+//@   ensures[ok] result1 == nil ==> result0 == okBytes
